@@ -5,13 +5,17 @@
    of C03, used for the 1.2 <-> 2.0 statement).
 
    Reading.  R (W o1 x) ~ R (W o2 x) is split along the two halves of the file.
-   HEADER.  write (Model/Writer.v) = write_sections (wo_version o) (wo_wrap o) m  — steps 1-9:
+   HEADER.  write (Model/Writer.v) = write_sections (wo_version o) (wo_wrap o) (col_fmt o 0) m
+   — steps 1-9:
    WRAP item, version, VERS substituted in a copy of ~Version, STRT/STOP/STEP refresh, unit
    alignment, standardize_value, the item lines of the four sections — followed by
    header_lines (wo_header_width o): the title lines "~Version -----" around those item lines,
    followed by write_data o: the ~ASCII line and the data lines (C12_write_factors).
-   write_sections does not take the option record at all, so two configurations that agree on
-   `version` and `wrap` produce the same item lines and leave the same in-memory file
+   write_sections does not take the option record at all — only `version`, `wrap` and the
+   numeric format of the index column (col_fmt o 0: STRT/STOP/STEP are printed with it; this is
+   the "numeric formats have equal precision" proviso of the property, needed for the index
+   column only) — so two configurations that agree on these three produce the same item lines
+   and leave the same in-memory file
    (C12_header_independent_of_data_options, C12_state_independent_of_presentation); the item
    lines are section_lines of the sections of that file (C12_written_lines), which C03 reads
    back.  VERSION.  The order in which value and description are laid out is looked up by
@@ -193,9 +197,10 @@ Example C12_ex_swap_read :
   = Some ("COMP"%string, VStr (s2l "ANY OIL CO."), "COMPANY"%string).
 Proof. vm_compute. split; reflexivity. Qed.
 
-(* two option records that differ in every presentation option *)
+(* two option records that differ in every presentation option but give the index column the
+   same numeric format *)
 Definition ex_o1 : wopts := mkwopts (Some W12) (Some false) (s2l "%.5f") [] LAuto [32] [32] 79 60 (s2l "~ASCII") false.
-Definition ex_o2 : wopts := mkwopts (Some W12) (Some false) (s2l "%.2f") [(1%nat, s2l "%d")] (LFixed 12) [] [44] 40 60 (s2l "~A") true.
+Definition ex_o2 : wopts := mkwopts (Some W12) (Some false) (s2l "%.2f") [(0%nat, s2l "%.5f"); (1%nat, s2l "%d")] (LFixed 12) [] [44] 40 60 (s2l "~A") true.
 Definition ex_las : mlas :=
   mkmlas (mklas (mksect [new_item (s2l "VERS") [] (VFloat (s2l "2.0")) (s2l "v"); new_item (s2l "WRAP") [] (VStr (s2l "NO")) []] false)
                 (mksect [new_item (s2l "STRT") (s2l "M") (VFloat (s2l "1.0")) []; new_item (s2l "STOP") (s2l "M") (VFloat (s2l "2.0")) [];
@@ -206,15 +211,16 @@ Definition ex_las : mlas :=
          None.
 (* stand-ins for the oracles: any functions do (the theorems quantify over them) *)
 Definition ex_write (o : wopts) : wres :=
-  write (fun f t => f ++ t) (fun a b => a ++ b) (fun f => f ++ s2l "3.14159") (fun l => l)
+  write (fun f t => f ++ t) (fun f a b => a ++ b) (fun f => f ++ s2l "3.14159") (fun l => l)
         (fun l => false) (fun a b => str_eqb a b) o ex_las.
 
 Example C12_ex_write_both_ok :
+  col_fmt ex_o1 0%nat = col_fmt ex_o2 0%nat /\
   match ex_write ex_o1, ex_write ex_o2 with
   | WOk t1 m1, WOk t2 m2 => negb (str_eqb t1 t2) && Nat.ltb 100 (List.length t1)
   | _, _ => false
   end = true.
-Proof. vm_compute. reflexivity. Qed.
+Proof. vm_compute. split; reflexivity. Qed.
 
 Print Assumptions C12_table_checks.
 Print Assumptions C12_order_tables_agree.
